@@ -17,7 +17,7 @@ RULE = ('QRCode.matrix_iter (plain and verbose) over all 44 symbol sizes x borde
         'scale) iterator cases + (kind, size, keyword subset) colourful cases')
 ASSUMPTIONS = ['refmodel/qr.py function_map, refmodel/raster.py, refmodel/vector.py, refmodel/colors.py',
                'type codes are the documented constants of segno.consts (6, 8, 10, 12, 14, 16, 512, 4, 18)']
-REQUIRED = ['evaluations', 'verbose_modules_checked', 'plain_rows_checked', 'iter_refusals', 'colourful:png', 'colourful:svg',
+REQUIRED = ['evaluations', 'verbose_modules_checked', 'plain_rows_checked', 'iter_refusals', 'iter_refusals_direct', 'direct_utils_routes_checked', 'colourful:png', 'colourful:svg',
             'colourful:ppm', 'colourful_two_colours_nonuniform', 'all_44_sizes_iterated']
 EXHAUSTIVE = {'quick': 'every module of all 44 symbol sizes through matrix_iter(verbose=True)',
               'thorough': 'every module of all 44 symbol sizes through matrix_iter(verbose=True)'}
@@ -112,6 +112,20 @@ def check_iter(case, q, rec):
                                              'expected_rows': len(grid)})
     types = outoracle.scaled(outoracle.type_grid(q.matrix, b), scale)
     vrows = [list(r) for r in q.matrix_iter(scale=scale, border=border, verbose=True)]
+    # the module-level functions the writers use, called directly: same values on this route
+    from segno import utils
+    try:
+        direct = [list(r) for r in utils.matrix_iter(q.matrix, (n, n), scale=scale, border=border)]
+        vdirect = [list(r) for r in utils.matrix_iter_verbose(q.matrix, (n, n), scale=scale, border=border)]
+        rec.count('direct_utils_routes_checked')
+        if direct != grid:
+            rec.deviation('C11', 'matrix-iter', {'route': 'utils.matrix_iter', 'size': n, 'border': border, 'scale': scale,
+                                                 'rows': len(direct), 'expected_rows': len(grid)})
+        if vdirect != vrows:
+            rec.deviation('C11', 'verbose-routes-differ', {'size': n, 'border': border, 'scale': scale})
+    except Exception as ex:  # noqa: BLE001
+        rec.deviation('C11', 'matrix-iter-raises', {'route': 'utils', 'size': n, 'border': border, 'scale': scale,
+                                                    'error': repr(ex)[:200]})
     if len(vrows) != len(types) or any(len(r) != len(types) for r in vrows):
         rec.deviation('C11', 'verbose-size', {'size': n, 'border': border, 'scale': scale, 'rows': len(vrows)})
         return
@@ -217,6 +231,16 @@ def run_cases(cases, rec, tier='quick', seed='0'):
                 rec.count('iter_refusals')
             except Exception as ex:  # noqa: BLE001
                 rec.deviation('C11', 'invalid-iter-argument-exception', {'kw': case['kw'], 'type': type(ex).__name__})
+            from segno import utils
+            n = len(q.matrix)
+            fn = utils.matrix_iter_verbose if case['verbose'] else utils.matrix_iter
+            try:
+                list(fn(q.matrix, (n, n), **case['kw']))
+                rec.deviation('C11', 'invalid-iter-argument-accepted', {'route': 'utils', 'kw': case['kw'], 'verbose': case['verbose']})
+            except ValueError:
+                rec.count('iter_refusals_direct')
+            except Exception as ex:  # noqa: BLE001
+                rec.deviation('C11', 'invalid-iter-argument-exception', {'route': 'utils', 'kw': case['kw'], 'type': type(ex).__name__})
         else:
             check_colourful(case, q, rec)
     monitors.stop_reach(rec)
